@@ -11,7 +11,7 @@ From TT Require Import Capture.LayerProofs.
 (** one capture layer: no callback panics, whatever the filter and whatever ids the Registry issued *)
 Theorem C16_capture_total :
   forall (filter : cs_data -> bool) (ids : list N) (p : prog),
-    wf_prog_stale p -> single_threaded p = true ->
+    wf_prog_stale p ->
     exists r st, layer_run filter ids p = ROk (r, st).
 Proof. exact capture_total. Qed.
 
@@ -19,14 +19,14 @@ Proof. exact capture_total. Qed.
     filters, pass-through layers anywhere *)
 Theorem C16_stack_total :
   forall (ids : list N) (p : prog) (ls : list layer),
-    wf_prog_stale p -> single_threaded p = true -> stack_fresh ls = true -> NoDup (stack_keys ls) ->
+    wf_prog_stale p -> stack_fresh ls = true -> NoDup (stack_keys ls) ->
     exists r ls', stack_run ids p ls = ROk (r, ls').
 Proof. exact stack_total. Qed.
 
 (** what each layer of the stack captures is what it captures alone *)
 Theorem C16_layers_independent :
   forall (ids : list N) (p : prog) (ls : list layer),
-    wf_prog_stale p -> single_threaded p = true -> stack_fresh ls = true -> NoDup (stack_keys ls) ->
+    wf_prog_stale p -> stack_fresh ls = true -> NoDup (stack_keys ls) ->
     exists r ls', stack_run ids p ls = ROk (r, ls') /\
       Forall2 (fun filter st => storage_of (layer_run filter ids p) = Some st)
               (stack_filters ls) (stack_storages ls').
@@ -35,11 +35,11 @@ Proof. exact layers_independent. Qed.
 (** ... which is what the specification prescribes for its filter *)
 Theorem C16_stack_storages_are_spec :
   forall (ids : list N) (p : prog) (ls : list layer),
-    wf_prog_stale p -> single_threaded p = true -> stack_fresh ls = true -> NoDup (stack_keys ls) ->
+    wf_prog_stale p -> stack_fresh ls = true -> NoDup (stack_keys ls) ->
     exists r ls', stack_run ids p ls = ROk (r, ls') /\
       stack_storages ls' = map (fun filter => spec_storage filter ids p) (stack_filters ls) /\
       stack_keys ls' = stack_keys ls /\ stack_filters ls' = stack_filters ls.
-Proof. exact (fun ids p ls Hwf Hst => stacks_refine ids p Hwf Hst ls). Qed.
+Proof. exact (fun ids p ls Hwf => stacks_refine ids p Hwf ls). Qed.
 
 (** Non-vacuity: follows-from towards the id of a closed span (finding F5), an unknown id and the raw
     id of an open span; records and enters on a span one of the layers filtered out; two capture
